@@ -57,3 +57,55 @@ def replay(prop, path):
         return 0
     print(json.dumps(case['calls'], indent=1))
     return 0
+
+
+def check_C09(tier, seed):
+    rep = Report('C09', tier, seed)
+    devs = engine.open_deviations()
+    quick = tier == 'quick'
+    rep.notes['rule'] = ('TLC: all expression shapes (depth <= MaxDepth, <= MaxLeaves leaves) over every construct with operands, a '
+                         'distinct probe per leaf, all outcome assignments {truthy, falsy, host list, raises}; order/laziness/once '
+                         'invariants on the event history; code: the same scenarios replayed plus random deeper probe programs '
+                         '(method/pipe sugar, slices, dict literals, index/compound/del statements), every event validated by TLC; '
+                         'distinct = distinct (source, outcome assignment)')
+    consts = {'MaxLeaves': '3' if quick else '4', 'MaxDepth': '2'}
+    res = engine.model_check(rep, 'MC_C09.tla', 'MC_C09.cfg', consts=consts, timeout=900 if quick else 3400, coverage=not quick)
+    rep.exhaustive = True
+    engine.model_check(rep, 'MC_C09.tla', 'MC_C09.cfg', consts={'MaxLeaves': '3', 'MaxDepth': '1'}, deviations=['MutIfBoth'],
+                       expect_violation=True, timeout=600)
+    if not rep.machinery:
+        engine.replay_emitted(rep, _emitted(res), devs, sample=2000 if quick else 15000, seed=seed, what='TLC scenario')
+    scns = families.probe_programs(seed, 1500 if quick else 12000, depth=3 if quick else 4)
+    cases = [c for c in vmrun.run_scenarios(scns) if 'harness_error' not in c]
+    engine.judge_cases(rep, cases, devs, what='probe program')
+    rep.assumptions += ['probe outcomes are drawn from {1, 0, 2, "a", None, host list, host dict, raise}', 'TLC bounds: MaxDepth, MaxLeaves of spec/MC_C09.tla']
+    return rep.finish()
+
+
+def check_C10(tier, seed):
+    rep = Report('C10', tier, seed)
+    devs = engine.open_deviations()
+    quick = tier == 'quick'
+    rep.notes['rule'] = ('TLC: a name bound at every subset of {builtin, host/top-level, parameter/local}; host-supplied AST lambdas '
+                         'whose bodies assign, nested/recursive calls, bodies raising under map/sorted/filter and under a swallowing '
+                         'callback (MC_C10); code: the same scenarios replayed + random scoping programs incl. host mappings equal to a '
+                         'parameter binding and 2-call histories; scope depth, host names, FUNCTIONS digest compared after every call')
+    res = engine.model_check(rep, 'MC_C10.tla', 'MC_C10.cfg', timeout=900, coverage=not quick)
+    rep.exhaustive = True
+    engine.model_check(rep, 'MC_C10.tla', 'MC_C10.cfg', deviations=['MutNoPopOnRaise'], expect_violation=True, timeout=600)
+    if not rep.machinery:
+        cases = engine.replay_emitted(rep, _emitted(res), devs, sample=2000 if quick else 16128, seed=seed, what='TLC scenario')
+        _functions_frozen(rep, cases)
+    scns = families.scoping_programs(seed, 2000 if quick else 15000)
+    cases = [c for c in vmrun.run_scenarios(scns) if 'harness_error' not in c]
+    engine.judge_cases(rep, cases, devs, what='scoping program')
+    _functions_frozen(rep, cases)
+    rep.assumptions += ['lambda bodies that assign exist only as host-supplied ASTs (ast_names), as in tests/test_sq_parser.py::test_custom_ast_functions']
+    return rep.finish()
+
+
+def _functions_frozen(rep, cases):
+    for c in cases or []:
+        if not c.get('functions_frozen', True):
+            rep.violation('the builtin table FUNCTIONS was modified by an evaluation: %r' % [cl['src'] for cl in c['calls']],
+                          {'case': engine.slim(c)})
